@@ -79,6 +79,7 @@ type chaosOpts struct {
 	CheckLinearizability bool
 	WriteHeavy  bool
 	ReadPct     int
+	LeaderHunt  int // cut off up to this many freshly installed leaders per shard from their peers (clients still reach them)
 }
 
 type chaos struct {
@@ -365,6 +366,34 @@ func (c *chaos) restartDeadNodes() {
 
 func (c *chaos) lastDir(name string) string {
 	return fmt.Sprintf("%s/%s-d%d", c.w.Root, name, c.cl.nodeDirSeq[name])
+}
+
+// huntLeader: a directed schedule.  A leader that has just been installed is cut off from the other nodes
+// and the coordinator (clients keep reaching it) before its first entries have spread, so that logs
+// written by one node alone, from the very first offset on, become common.  Called from the monitors.
+func (c *chaos) huntLeader(node string, shard, term int64) {
+	g := NewRng(c.r.Seed, "hunt", shard, term)
+	d := time.Duration(g.Range(1500, 20000)) * time.Millisecond
+	c.w.Net.After(time.Duration(g.Range(0, 40))*time.Millisecond, fmt.Sprintf("hunt/%d/%d", shard, term), func() {
+		if sn := c.w.Node(node); sn == nil || sn.EP.Dead() {
+			return
+		}
+		others := append([]string{"coord"}, c.cl.NodeNames...)
+		for _, o := range others {
+			if o != node {
+				c.w.Net.Partition(node, o)
+				c.w.Net.Partition(o, node)
+			}
+		}
+		c.plan = append(c.plan, fmt.Sprintf("t=%v cut off new leader %s (shard %d term %d) for %v", c.r.Now(), node, shard, term, d))
+		c.r.Count("fault_leader_hunt", 1)
+		c.w.Net.After(d, fmt.Sprintf("hunt-heal/%d/%d", shard, term), func() {
+			for _, o := range others {
+				c.w.Net.Heal(node, o)
+				c.w.Net.Heal(o, node)
+			}
+		})
+	})
 }
 
 func (c *chaos) injectFault(i int) {
